@@ -523,6 +523,64 @@ def run_beam_roll(case):
             "sample": {"tip_existing": u_rolled[-6:].tolist(), "tip_fresh": u_fresh[-6:].tolist()}}
 
 
+def run_beam_inplace(case):
+    """create -> solve -> move the SAME objects in place (the user's Line, the simulation's mesh, beam.yAxis, the
+    loads) -> re-solve; the second solution must be the first one moved"""
+    from EasyFEA import Mesher, Models, Simulations
+    from EasyFEA.Geoms import Domain, Point, Line
+    dim = case["dim"]
+    d = np.asarray(case.get("dir", [1.0, 0.3, 0.0] if dim == 2 else [1.0, 0.4, 0.2]), dtype=float)
+    d = d / np.linalg.norm(d)
+    mesher = Mesher()
+    section = mesher.Mesh_2D(Domain(Point(-6.5, -3.0), Point(6.5, 3.0)))
+    p1, p2 = Point(0, 0, 0), Point(*(120.0 * d))
+    line = Line(p1, p2, 40.0)
+    kw = {}
+    if dim == 3:
+        y0 = np.cross([0.3, -0.5, 0.8], d)
+        kw["yAxis"] = tuple(y0 / np.linalg.norm(y0))
+    beam = Models.Beam.Isotropic(dim, line, section, 210000.0, 0.3, **kw)
+    mesh = mesher.Mesh_Beams([beam], elemType=case["elemType"])
+    simu = Simulations.Beam(mesh, Models.Beam.BeamStructure([beam]), useTimoshenko=case.get("timo", False), verbosity=False)
+    mesh = simu.mesh
+    n1, n2 = mesh.Nodes_Point(p1), mesh.Nodes_Point(p2)
+    F = np.asarray(case["F"], dtype=float)
+    comps = ["x", "y", "z"][:dim]
+    names = ["ux", "uy", "rz"] if dim == 2 else ["ux", "uy", "uz", "rx", "ry", "rz"]
+
+    def solve(Fv):
+        simu.Bc_Init()
+        simu.add_dirichlet(n1, [0] * simu.Get_dof_n(), simu.Get_unknowns())
+        simu.add_neumann(n2, [float(x) for x in Fv[:dim]], comps)
+        simu.Solve()
+        return {r: np.asarray(simu.Result(r, nodeValues=True), dtype=float).reshape(-1).copy() for r in names}
+    r1 = solve(F)
+    yA = np.asarray(beam.yAxis, dtype=float)
+    # ---- move everything in place
+    ang, ax = float(case["angle"]), tuple(float(v) for v in case.get("axis", [0, 0, 1]))
+    tr = tuple(float(v) for v in case.get("translate", [0, 0, 0]))
+    R = rot_matrix(ax, ang)
+    line.Rotate(ang, (0.0, 0.0, 0.0), ax)
+    line.Translate(*tr)
+    simu.mesh.Rotate(ang, (0.0, 0.0, 0.0), ax)
+    simu.mesh.Translate(*tr)
+    beam.yAxis = tuple(R @ yA)
+    r2 = solve(R @ F)
+    n = len(r1["ux"])
+    u1, u2, w1, w2 = np.zeros((n, 3)), np.zeros((n, 3)), np.zeros((n, 3)), np.zeros((n, 3))
+    for k, nm in enumerate(["ux", "uy", "uz"][:dim]):
+        u1[:, k], u2[:, k] = r1[nm], r2[nm]
+    for k, nm in enumerate(["rx", "ry", "rz"]):
+        if nm in r1:
+            w1[:, k], w2[:, k] = r1[nm], r2[nm]
+    eu = float(np.abs(u2 @ R - u1).max() / np.abs(u1).max())
+    ew = float(np.abs(w2 @ R - w1).max() / np.abs(w1).max())
+    ex = float(np.abs(np.asarray(beam.xAxis, dtype=float) - R @ d).max())
+    return {"err": max(eu, ew, ex), "err_u": eu, "err_rot": ew, "err_xAxis": ex,
+            "what": "the SAME line / mesh / beam objects moved in place and re-solved vs the first solution moved",
+            "sample": {"xAxis_now": np.asarray(beam.xAxis).tolist(), "xAxis_expected": (R @ d).tolist()}}
+
+
 def run_Bcheck(case):
     """per-node block of Get_B_e_pg vs the transcription used in C10_continuum.v"""
     from EasyFEA.FEM._group_elem import GroupElemFactory
@@ -564,6 +622,8 @@ def run_case(case):
             return run_hyper(case)
         if case["kind"] == "beam_roll":
             return run_beam_roll(case)
+        if case["kind"] == "beam_inplace":
+            return run_beam_inplace(case)
         return {"raises": "unknown kind"}
     except Exception as ex:  # noqa
         import traceback
